@@ -119,7 +119,13 @@ def run_typed(ctx, PosVel, GM, system, base, how="recorded"):
             gviolate(ctx, f"typed-input:{cls}:dtype", f"PosVel(<{cls}>, {system!r}) holds dtype {arr.dtype} (C-contiguous: {arr.flags.c_contiguous}), expected native float64, C order", case)
         if not bits_equal(arr.astype(float), base):
             gviolate(ctx, f"typed-input:{cls}:values", f"PosVel(<{cls}>, {system!r}) holds {np.ravel(arr)[:6].tolist()} but was given {np.ravel(base)[:6].tolist()}", case)
-        if not close_f64(conv, ref_conv):
+        cmp_a, cmp_b = conv, ref_conv
+        if other == "kepler" and conv.shape == ref_conv.shape and conv.dtype == np.dtype("float64"):
+            # Omega, omega, E are angles: an ulp in `u - vega` around 0 makes the wrap return 2 pi instead of 0
+            cmp_a, cmp_b = conv.copy(), ref_conv.copy()
+            dang = (cmp_a[..., 3:] - cmp_b[..., 3:] + PI) % (2 * PI) - PI
+            cmp_a[..., 3:] = cmp_b[..., 3:] + dang
+        if not close_f64(cmp_a, cmp_b):
             d = float(np.nanmax(np.abs(conv.astype(float) - ref_conv) / np.maximum(1.0, np.abs(ref_conv)))) if conv.shape == ref_conv.shape else float("nan")
             gviolate(ctx, f"typed-input:{cls}:conversion", f"PosVel(<{cls}>, {system!r}).{other} is {np.ravel(conv)[:6].tolist()} (dtype {conv.dtype}) but the float64 copy of the same values "
                      f"gives {np.ravel(ref_conv)[:6].tolist()} (largest scaled difference {d:.3e})", case)
